@@ -12,7 +12,8 @@ RULE = ('the real cvise.utils.nestedmatcher.find / search on every string up to 
         'lists the passes use (balanced x4, curly3 with its "=\\s*" prefix, the ternary part list, a sample of the peephole part '
         'lists in search=False mode), plus random longer strings; compared with (1) the Coq model (regular-expression parts enter '
         'as tables computed by CPython re on the same string) and (2) an independent naive reference matcher in Python; '
-        'non-trivial = distinct cases with a match')
+        'non-trivial = distinct cases with a match'
+        ' Also: the same text queried for different delimiter kinds and positions in random order (history independence).')
 TRUSTED = ['hand-written model coq/Matcher/NM.v tied to cvise/utils/nestedmatcher.py by this correspondence run',
            'CPython re for the regular-expression parts (abstract in the theorems: any function bounded by the string)']
 ASSUMPTIONS = ['parts are matched one after the other, each by its own deterministic anchored match (that is the matcher\'s contract; no backtracking across parts)']
